@@ -992,7 +992,7 @@ func runC02Case(c *Ctx, idx int, sp c02Spec) (out []*lib.Case, err error) {
 				optNote = fmt.Sprintf("partitions=%d", parts)
 				break
 			}
-			optNote = "rediff failed (" + c2 + ": " + firstLine(m2) + "), plain patch used"
+			optNote = "rediff failed (" + c2 + ": " + c02FirstLine(m2) + "), plain patch used"
 		}
 		obs["optimize"] = optNote
 	}
@@ -1000,7 +1000,7 @@ func runC02Case(c *Ctx, idx int, sp c02Spec) (out []*lib.Case, err error) {
 	if cls != "ok" {
 		// producing the patch is C01 territory; it is not a C02 verdict on commit
 		cs.Class += "/nopatch"
-		obs["diff_msg"] = firstLine(msg)
+		obs["diff_msg"] = c02FirstLine(msg)
 		emit()
 		return out, nil
 	}
@@ -1107,7 +1107,7 @@ func runC02Case(c *Ctx, idx int, sp c02Spec) (out []*lib.Case, err error) {
 		classes = append(classes, res.class)
 		bad := ""
 		if res.class != "ok" {
-			bad = fmt.Sprintf("in-place apply #%d: Commit %s: %s", i, res.class, firstLine(res.msg))
+			bad = fmt.Sprintf("in-place apply #%d: Commit %s: %s", i, res.class, c02FirstLine(res.msg))
 		} else if d := lib.DiffBuilds(res.tree, sp.nw); d != "" {
 			bad = fmt.Sprintf("in-place apply #%d: tree after Commit differs from the new build: %s", i, d)
 		}
@@ -1180,7 +1180,7 @@ func allData(bs ...*lib.Build) [][]byte {
 	return out
 }
 
-func firstLine(s string) string {
+func c02FirstLine(s string) string {
 	if i := strings.IndexByte(s, '\n'); i >= 0 {
 		s = s[:i]
 	}
